@@ -351,6 +351,19 @@ func tryReplay(L *Loaded, opt runOpts, id string, o *oblOutcome) *replayOutcome 
 	if o == nil || o.unit == nil || o.unit.fn == nil {
 		return nil
 	}
+	if o.unit.entry != nil {
+		rel, src, ok := entryReplay(o)
+		if !ok {
+			return &replayOutcome{Why: "the model of this table entry could not be turned into a program (non-scalar operands)"}
+		}
+		ro := &replayOutcome{Attempted: true, Test: src, Pkg: rel}
+		out, confirmed := runReplayTest(opt, rel, src)
+		ro.Output, ro.Confirmed = out, confirmed
+		if !confirmed {
+			ro.Why = "the program built from the model did not fail on the real code"
+		}
+		return ro
+	}
 	if tpl, ok := replayTemplates[o.unit.Func]; ok {
 		rel, src, ok := tpl(o)
 		if !ok {
@@ -549,4 +562,160 @@ func TestVerifReplay(t *testing.T) {
 `, r)
 		return "value/export", src, true
 	}
+}
+
+var tableOperators = map[string]string{"Equal": "=", "Less": "<", "Add": "+", "Sub": "-", "Mul": "*", "Div": "/", "Mod": "%", "Left": "<<", "Right": ">>",
+	"Pow": "^", "And": "&", "Or": "|", "Neg": "-", "Not": "!"}
+
+// modelValue turns an Iface model value like (box_3 5) into a Go expression of package value.
+func modelValue(o *oblOutcome, v string) (string, bool) {
+	v = strings.TrimSpace(v)
+	if !strings.HasPrefix(v, "(box_") {
+		return "", false
+	}
+	parts := splitSexp(v[1 : len(v)-1])
+	if len(parts) != 2 {
+		return "", false
+	}
+	key := o.unit.ctorKeys[parts[0]]
+	switch {
+	case strings.HasSuffix(key, "/value.Int"):
+		r, ok := parseSexpNum(parts[1])
+		if !ok || !r.IsInt() || !r.Num().IsInt64() {
+			return "", false
+		}
+		return "Int(" + r.Num().String() + ")", true
+	case strings.HasSuffix(key, "/value.Float"):
+		r, ok := parseSexpNum(parts[1])
+		if !ok {
+			return "", false
+		}
+		f, _ := r.Float64()
+		return "Float(" + fmtFloat(f) + ")", true
+	case strings.HasSuffix(key, "/value.Bool"):
+		if parts[1] == "true" || parts[1] == "false" {
+			return "Bool(" + parts[1] + ")", true
+		}
+	case strings.HasSuffix(key, "/value.String"):
+		return "String(\"x\")", true
+	}
+	return "", false
+}
+
+// entryReplay: the failing table entry is reached through a program evaluated by the real generator.
+func entryReplay(o *oblOutcome) (string, string, bool) {
+	t := o.unit.entry
+	if !strings.HasSuffix(funcPkgPath(t.site), "/value") {
+		return "", "", false
+	}
+	var vals []string
+	get := func(name string) bool {
+		mv, ok := o.r.Model[name]
+		if !ok {
+			return false
+		}
+		g, ok := modelValue(o, mv)
+		if !ok {
+			return false
+		}
+		vals = append(vals, g)
+		return true
+	}
+	var prog string
+	argName := func(i int) string { return fmt.Sprintf("a%d", i) }
+	switch t.kind {
+	case "binop", "op":
+		opn := t.name
+		if t.kind == "binop" {
+			opn = tableOperators[t.table]
+		}
+		if opn == "" || !get("a") || !get("b") {
+			return "", "", false
+		}
+		prog = "a0 " + opn + " a1"
+	case "unop":
+		opn := tableOperators[t.table]
+		if opn == "" || !get("a") {
+			return "", "", false
+		}
+		prog = opn + "a0"
+	case "static", "method":
+		n := t.args
+		if t.kind == "method" && n >= 0 {
+			n++
+		}
+		if n < 0 {
+			r, ok := parseSexpNum(o.r.Model["stack.size"])
+			if !ok || !r.IsInt() {
+				return "", "", false
+			}
+			n = int(r.Num().Int64())
+		}
+		if n > 4 {
+			return "", "", false
+		}
+		for i := 0; i < n; i++ {
+			if !get(fmt.Sprintf("stack[%d]", i)) {
+				return "", "", false
+			}
+		}
+		var as []string
+		for i := 0; i < n; i++ {
+			as = append(as, argName(i))
+		}
+		name := strings.Split(t.name, "~")[0]
+		if t.kind == "static" {
+			prog = name + "(" + strings.Join(as, ", ") + ")"
+		} else {
+			if n == 0 {
+				return "", "", false
+			}
+			prog = as[0] + "." + name + "(" + strings.Join(as[1:], ", ") + ")"
+		}
+	default:
+		return "", "", false
+	}
+	var names []string
+	for i := range vals {
+		names = append(names, fmt.Sprintf("%q", argName(i)))
+	}
+	src := fmt.Sprintf(`package value
+
+import (
+	"strings"
+	"testing"
+)
+
+func isGoPanic(msg string) bool {
+	for _, frag := range []string{"runtime error", "panic", "interface conversion", "index out of range", "nil pointer", "divide by zero", "negative shift", "slice bounds", "invalid argument to Intn"} {
+		if strings.Contains(msg, frag) {
+			return true
+		}
+	}
+	return false
+}
+
+func TestVerifReplay(t *testing.T) {
+	fg := New()
+	defer func() {
+		if r := recover(); r != nil {
+			t.Fatalf("REPLAY-CONFIRMED: host panic: %%v", r)
+		}
+	}()
+	for _, prog := range []string{%q, %q} {
+		f, _, err := fg.Generate(prog, %s)
+		if err != nil {
+			if isGoPanic(err.Error()) {
+				t.Fatalf("REPLAY-CONFIRMED: %%s: %%v", prog, err)
+			}
+			continue
+		}
+		_, err = f.Eval(%s)
+		if err != nil && isGoPanic(err.Error()) {
+			t.Fatalf("REPLAY-CONFIRMED: %%s: a Go panic reached the evaluation boundary (not an ordinary error): %%v", prog, err)
+		}
+	}
+}
+`, prog, "try "+prog+" catch 0", strings.Join(names, ", "), strings.Join(vals, ", "))
+	return "value", src, true
 }
